@@ -469,6 +469,7 @@ func TestCheck(t *testing.T) {
 	rec.Note("rule", "a case is one history run against the real Processor in a synctest bubble: (directed) the loop parked at each hook point x hit 1-2 x each placed operation kind (pairs of kinds as well); (random) 4-24 seeded Enqueue/Dequeue/Sleep/Close operations in lock-step with seeded hook parking; (racing) 2-4 goroutines issuing operations at the same virtual instants. Non-trivial = at least one callback was observed or an item was removed before running; distinct = distinct operation list.")
 	rec.Note("require", []string{"park.loop.start", "park.loop.empty", "park.loop.peeked", "park.loop.armed", "park.loop.fired", "park.exec.popped", "callbacks", "placed.close", "placed.enq", "placed.deq", "racing.same_instant_ops", "gated.close_waited_for_callback"})
 	ps := plans()
+	rec.Planned(len(ps))
 	for idx, pl := range ps {
 		if !mon.Mine(idx) {
 			continue
